@@ -67,7 +67,7 @@ func (m recMemo) get(img *simfs.FS, base *explore.Base, o explore.RecoverOpts) (
 		return r, false
 	}
 	r := explore.RecoverImage(img, base.Cfg, base.Keys, base.Probe, base.Seed, o)
-	if len(m) >= 300000 {
+	if len(m) >= 100000 {
 		// the memo is a cache: bound its memory (long thorough runs)
 		for x := range m {
 			delete(m, x)
